@@ -535,21 +535,28 @@ def concretise(T, a):
 
 
 def run_ops(path, T, abstract_ops, fresh=True):
-    """Perform each abstract op on the real library and compare with the truth.  Returns labels."""
+    """Perform each abstract op on the real library and compare with the truth.  Returns labels.
+    fresh=False: one reader / emulator serves all the calls of the list (as a program would use it)."""
     labels = []
-    for a in abstract_ops:
-        op = concretise(T, a)
-        if op is None:
-            continue
-        H = Handles(path, T)
-        try:
-            kind, want = expected(T, op)
+    shared = None if fresh else Handles(path, T)
+    try:
+        for a in abstract_ops:
+            op = concretise(T, a)
+            if op is None:
+                continue
+            H = Handles(path, T) if fresh else shared
             try:
-                got = perform(H, op)
-            except Exception as e:
-                raise Violation(f"exception:{op['m']}", f"{op}: {type(e).__name__}: {e}")
-            compare(kind, got, want, op)
-        finally:
-            H.close()
-        labels.append(op["m"])
+                kind, want = expected(T, op)
+                try:
+                    got = perform(H, op)
+                except Exception as e:
+                    raise Violation(f"exception:{op['m']}", f"{op}: {type(e).__name__}: {e}")
+                compare(kind, got, want, op)
+            finally:
+                if fresh:
+                    H.close()
+            labels.append(op["m"])
+    finally:
+        if shared is not None:
+            shared.close()
     return labels
